@@ -35,6 +35,9 @@ type sesWorld struct {
 	respLog  []string
 	cbSeq    int
 	reacts   map[string][]string // event name -> api calls to make from a listener ("send"/"close0"/"close1")
+	reactCount map[string]int
+	listenerParked []chan struct{}
+	hsReact    string // "flush" / "drain": a server-level listener drops the client of the session being handshaken, from inside that event
 	inReact  int
 	showCookie bool
 	jOf        map[string]string
@@ -96,11 +99,19 @@ func (w *sesWorld) observe(ord int, s engine.Socket) {
 	tag := fmt.Sprintf("s%d", ord)
 	fire := func(ev string) {
 		for _, call := range w.reacts[ev] {
-			if w.inReact > 3 {
-				return
+			if w.inReact > 3 || w.reactCount[ev] >= 2 {
+				return // a listener that answers every event with a send would never let the session rest
 			}
+			w.reactCount[ev]++
 			w.inReact++
 			switch call {
+			case "park": // once: the listener stays inside the event until "ses unpark"
+				w.reacts[ev] = nil
+				ch := make(chan struct{})
+				w.parkMu.Lock()
+				w.listenerParked = append(w.listenerParked, ch)
+				w.parkMu.Unlock()
+				<-ch
 			case "send":
 				s.Send(types.NewStringBufferString("re:"+ev), nil, nil)
 			case "close0":
@@ -186,6 +197,10 @@ func sesRun(t *testing.T, lines []string) []string {
 					}
 				}
 				w.winParked = map[string][]chan struct{}{}
+				for _, ch := range w.listenerParked {
+					close(ch)
+				}
+				w.listenerParked = nil
 				w.parkMu.Unlock()
 				w.teardown()
 			}
@@ -216,7 +231,7 @@ func sesRun(t *testing.T, lines []string) []string {
 				if f[11] != "-" {
 					opts.SetHttpCompression(&types.HttpCompression{Threshold: atoi(f[11])})
 				}
-				w = &sesWorld{world: newWorld(t, opts, nil), reacts: map[string][]string{}, jOf: map[string]string{},
+				w = &sesWorld{world: newWorld(t, opts, nil), reacts: map[string][]string{}, reactCount: map[string]int{}, jOf: map[string]string{},
 					armed: map[string]int{}, winParked: map[string][]chan struct{}{}}
 				curSes = w
 				utils.SetVerifHook(w.hook)
@@ -228,8 +243,12 @@ func sesRun(t *testing.T, lines []string) []string {
 				})
 				w.srv.On("flush", func(a ...any) {
 					w.e("srv:flush:%s:%s", w.tagOf(a[0].(engine.Socket)), pktList(a[1].([]*packet.Packet)))
+					w.duringHandshake("flush", a[0].(engine.Socket))
 				})
-				w.srv.On("drain", func(a ...any) { w.e("srv:drain:%s", w.tagOf(a[0].(engine.Socket))) })
+				w.srv.On("drain", func(a ...any) {
+					w.e("srv:drain:%s", w.tagOf(a[0].(engine.Socket)))
+					w.duringHandshake("drain", a[0].(engine.Socket))
+				})
 				w.onWrite = func(i int) { w.e("req:write:%d", i) }
 				if f[10] == "1" || (len(f) > 12 && f[12] == "hdr") {
 					w.srv.On("initial_headers", func(a ...any) { w.e("srv:initial_headers:%d", w.reqIndex(a[1].(*types.HttpContext))) })
@@ -255,6 +274,15 @@ func sesRun(t *testing.T, lines []string) []string {
 					w.winParked[f[2]] = chs[1:]
 				}
 				w.parkMu.Unlock()
+			case "unpark": // ses unpark: listeners parked by a "park" reaction go on
+				w.parkMu.Lock()
+				for _, ch := range w.listenerParked {
+					close(ch)
+				}
+				w.listenerParked = nil
+				w.parkMu.Unlock()
+			case "hsreact": // ses hsreact <flush|drain>: the peer of the next handshake goes away inside that server event of its open packet
+				w.hsReact = f[2]
 			case "react": // ses react <event> <send|close0|close1>
 				w.reacts[f[2]] = append(w.reacts[f[2]], f[3])
 			case "hs": // ses hs <transport> <eio> <b64> <j|->
@@ -459,7 +487,36 @@ func sesRun(t *testing.T, lines []string) []string {
 			outs = appendLive(outs, strings.Join(parts, " ")+note)
 		}
 	})
+	if lastBubbleLeak != "" && len(outs) > 0 {
+		outs[len(outs)-1] += " LEAK" // goroutines of the server outlived the scenario's teardown (40 s of silence after everything was closed)
+	}
 	return outs
+}
+
+// duringHandshake: an application listener of a server-level event is running
+// inside the handshake (the session is not announced yet) when the peer goes
+// away; the listener returns once the session has noticed.
+func (w *sesWorld) duringHandshake(ev string, s engine.Socket) {
+	if w.hsReact != ev {
+		return
+	}
+	w.mu.Lock()
+	_, announced := w.sockIdx[s.Id()]
+	w.mu.Unlock()
+	if announced {
+		return
+	}
+	w.hsReact = ""
+	if s.Transport().Name() == "polling" {
+		if len(w.reqs) > 0 {
+			w.reqs[len(w.reqs)-1].cancel()
+		}
+	} else if len(w.conns) > 0 && w.conns[len(w.conns)-1].cc != nil {
+		w.conns[len(w.conns)-1].cc.Close()
+	}
+	for i := 0; i < 200 && s.ReadyState() != "closed"; i++ {
+		time.Sleep(time.Millisecond)
+	}
 }
 
 // tagOf names a session by ordinal; a session that has not been announced yet
